@@ -27,6 +27,7 @@ Sem == Parse(Jobs.jobs[job].start)
 Refines == done => HiddenLeftRecursion \/       \* PegSem does not define recursion hidden behind a nullable call (C03 / C16 proviso)
                    LET s == Sem  m == MOutcome IN
                    \/ s.k = "fuel" \/ UnspecifiedAcceptance
+                   \/ (Unspecified /\ Cfg.act \in {"failb", "raise"})   \* the action decides on a value the documents leave open
                    \/ Gen                                              \* the generated-parser flavour follows KF-C02-1/2; see GenRefines
                    \/ StaticLeaderDeviates(Jobs.jobs[job].start)      \* KF-C03-1: decided (and reported) by C03, not here
                    \/ /\ (s.k = "ok") = (m.k = "ok")
